@@ -238,6 +238,14 @@ impl State {
                 ObserverState::Unlinked => {}
                 ObserverState::Created => {
                     obs.state().set(ObserverState::InUse);
+                    #[cfg(cormacrelf_incremental_rs_verif)]
+                    crate::verif::ev(
+                        "obs_link",
+                        &[
+                            ("o", self.verif.observer_index_of(obs.id().verif_raw()) as i64),
+                            ("n", crate::verif::nix(obs.observing_erased())),
+                        ],
+                    );
                     let node = obs.observing_erased();
                     let was_necessary = node.is_necessary();
                     {
@@ -270,6 +278,14 @@ impl State {
             };
             debug_assert_eq!(obs.state().get(), ObserverState::Disallowed);
             obs.state().set(ObserverState::Unlinked);
+            #[cfg(cormacrelf_incremental_rs_verif)]
+            crate::verif::ev(
+                "obs_unlink",
+                &[
+                    ("o", self.verif.observer_index_of(obs.id().verif_raw()) as i64),
+                    ("n", crate::verif::nix(obs.observing_erased())),
+                ],
+            );
             // get a strong ref to the node, before we drop its owning InternalObserver
             let observing = obs.observing_packed();
             {
@@ -286,6 +302,11 @@ impl State {
     #[tracing::instrument]
     fn stabilise_start(&self) {
         self.status.set(IncrStatus::Stabilising);
+        #[cfg(cormacrelf_incremental_rs_verif)]
+        crate::verif::ev(
+            "stab_begin",
+            &[("num", self.stabilisation_num.get().0 as i64)],
+        );
         // self.disallow_finalized_observers();
         self.add_new_observers();
         self.unlink_disallowed_observers();
@@ -294,6 +315,11 @@ impl State {
     fn stabilise_end(&self) {
         self.stabilisation_num
             .set(self.stabilisation_num.get().add1());
+        #[cfg(cormacrelf_incremental_rs_verif)]
+        crate::verif::ev(
+            "stab_end_begin",
+            &[("num", self.stabilisation_num.get().0 as i64)],
+        );
         #[cfg(debug_assertions)]
         {
             self.only_in_debug.currently_running_node.take();
@@ -304,6 +330,11 @@ impl State {
             while let Some(var) = stack.pop() {
                 let Some(var) = var.upgrade() else { continue };
                 tracing::debug!("set_during_stabilisation: found var with {:?}", var.id());
+                #[cfg(cormacrelf_incremental_rs_verif)]
+                crate::verif::ev(
+                    "apply_deferred",
+                    &[("n", self.verif.index_of(var.id()) as i64)],
+                );
                 var.set_var_stabilise_end();
             }
         });
@@ -327,6 +358,11 @@ impl State {
                 for var in alt.drain(..) {
                     let Some(var) = var.upgrade() else { continue };
                     tracing::debug!("dead_vars: found var with {:?}", var.id());
+                    #[cfg(cormacrelf_incremental_rs_verif)]
+                    crate::verif::ev(
+                        "break_dead_var",
+                        &[("n", self.verif.index_of(var.id()) as i64)],
+                    );
                     var.break_rc_cycle();
                 }
             }
@@ -348,6 +384,11 @@ impl State {
                 .drain(..)
                 .filter_map(|(node, node_update)| node.upgrade().map(|n| (n, node_update)))
             {
+                #[cfg(cormacrelf_incremental_rs_verif)]
+                crate::verif::ev(
+                    "run_handlers",
+                    &[("n", crate::verif::nix(&node)), ("upd", node_update as i64)],
+                );
                 node.run_on_update_handlers(node_update, now)
             }
         });
@@ -356,6 +397,8 @@ impl State {
             w.garbage_collect();
         }
         self.status.set(IncrStatus::NotStabilising);
+        #[cfg(cormacrelf_incremental_rs_verif)]
+        crate::verif::ev("stab_end", &[]);
     }
 
     pub(crate) fn is_stable(&self) -> bool {
